@@ -34,6 +34,9 @@ pub enum Policy {
   Pct { changes: u32 },
   /// first enabled action, always (run to completion, input order)
   Fifo,
+  /// start a new job whenever a worker is idle, otherwise uniform among parked workers: keeps as
+  /// many jobs in flight as there are workers
+  Spread,
 }
 
 #[derive(Clone, Debug)]
@@ -107,7 +110,7 @@ pub fn suspended<T>(f: impl FnOnce() -> T) -> T {
   r
 }
 
-fn decide(state: &mut PoolState, n_options: usize, prefer: Option<usize>, prios: Option<&[u64]>) -> usize {
+fn decide_ex(state: &mut PoolState, n_options: usize, prefer: Option<usize>, prios: Option<&[u64]>, spread_start: bool) -> usize {
   debug_assert!(n_options > 0);
   let d = match &mut state.schedule {
     Schedule::Fixed { decisions, pos } => {
@@ -117,6 +120,11 @@ fn decide(state: &mut PoolState, n_options: usize, prefer: Option<usize>, prios:
     }
     Schedule::Seeded { rng, policy } => match policy {
       Policy::Fifo => 0,
+      Policy::Spread => {
+        // by convention the last option is "start" when starting is possible (prefer == None is
+        // not a reliable signal, so the caller passes prios = None and n_options includes start)
+        if spread_start { n_options - 1 } else { rng.below(n_options) }
+      }
       Policy::Uniform { stick } => {
         let stick = *stick as usize;
         match prefer {
@@ -141,6 +149,10 @@ fn decide(state: &mut PoolState, n_options: usize, prefer: Option<usize>, prios:
   state.log.push(d as u32);
   state.stats.decisions += 1;
   d
+}
+
+fn decide(state: &mut PoolState, n_options: usize, prefer: Option<usize>, prios: Option<&[u64]>) -> usize {
+  decide_ex(state, n_options, prefer, prios, false)
 }
 
 #[derive(Clone, Copy, PartialEq, Eq, Debug)]
@@ -363,7 +375,7 @@ pub fn run_region<R: Send>(n: usize, job: &(dyn Fn(usize) -> R + Sync)) -> Vec<R
       let (d, stats_inflight) = POOL.with(|p| {
         let mut b = p.borrow_mut();
         let s = b.as_mut().unwrap();
-        let d = if n_options == 1 { 0 } else { decide(s, n_options, prefer, prios.as_deref()) };
+        let d = if n_options == 1 { 0 } else { decide_ex(s, n_options, prefer, prios.as_deref(), can_start) };
         (d, inflight)
       });
       region_decisions += 1;
